@@ -51,6 +51,27 @@ def lit_features(e):
     return ",".join(feats)
 
 
+DEFAULTS = {"call_parentheses": "Always", "collapse_simple_statement": "Never", "space_after_function_names": "Never",
+            "quote_style": "AutoPreferDouble", "indent_type": "Tabs", "line_endings": "Unix", "indent_width": 4}
+
+
+def options_tag(cfgs):
+    """cfgs: configurations of all failing variants of one case for one verdict. Empty when the failure also
+    occurs with every swept option at its default; otherwise the option values the failing variants share."""
+    def nondefault(c):
+        return {k: v for k, v in c.items() if k in DEFAULTS and v != DEFAULTS[k]}
+    nds = [nondefault(c) for c in cfgs]
+    if any(not n for n in nds):
+        return ""
+    keys = sorted(set(k for n in nds for k in n))
+    parts = []
+    for k in keys:
+        vals = set(json.dumps(n.get(k, DEFAULTS[k])) for n in nds)
+        if len(vals) == 1 and all(k in n for n in nds):
+            parts.append("%s=%s" % (k, nds[0][k]))
+    return ",".join(parts) if parts else "non-default options"
+
+
 def stmt_tag(case, events, i):
     f = _ev(events, "Format")
     recs = (f.get("stmts") or {}).get("recs") or []
@@ -71,7 +92,12 @@ def stmt_tag(case, events, i):
     return tag
 
 
-def signature(pid, what, source, case, events, i=0):
+def signature(pid, what, source, case, events, i=0, opts_tag=""):
+    if _ev(events, "Format").get("sort") and what not in ("reparse", "meaning", "tokens", "census"):
+        meta = case.get("meta", {}) or {}
+        devs = sorted(set("%s:%s" % (d["t"], (d["x"].split(":")[0] + "/" + d.get("y", "").split(":")[0]) if d["t"] == "range" else d["x"]) for d in meta.get("devs", [])))
+        kinds = "".join(sorted(set(i["k"] for i in meta.get("prog", []))))
+        return "%s|%s|items=%s;devs=%s" % (source if source != "corpus" else str(case.get("id")), what, kinds, ",".join(devs))
     if pid in ("C08", "C09") and _ev(events, "Format").get("stmts"):
         return "%s|%s|%s" % (source, what, stmt_tag(case, events, i))
     lit = _ev(events, "Lit")
@@ -85,11 +111,8 @@ def signature(pid, what, source, case, events, i=0):
         tag = str(case.get("id", "")).replace("corpus:", "")
     if rd.get("slot_ctx"):
         tag = ";".join("%s@%s|%s" % (c["kind"], c["prev"], c["next"]) for c in rd["slot_ctx"])
-        cfg = (f or r or x).get("cfg", {})
-        opts = ["%s=%s" % (k, v) for k, v in sorted(cfg.items()) if k not in ("column_width", "syntax") and v not in ("Never", "Always")
-                or (k == "collapse_simple_statement" and v == "Always")]
-        if opts:
-            tag += ";" + ",".join(opts)
+        if opts_tag:
+            tag += ";" + opts_tag
     if what in ("reparse",):
         return "%s|reparse|%s|%s" % (source, tag, strip_pos(r.get("msg", "")))
     if what in ("meaning", "grouping"):
